@@ -180,6 +180,21 @@ Theorem C12_targets_exact : forall tb c f u,
   (tg_get (c_targets c) f = Some u <-> exists t, lookup tb u = Some t /\ In f (s_targets t)).
 Proof. exact (targets_exact has_star matches basename_of re_match regex_name is_regex_name is_opt). Qed.
 
+(* selection by target file name is by the EXACT declared string (names are opaque: `out/gen.txt`,
+   `./out/gen.txt`, `out//gen.txt` are three names).  In any state (ph, tb1) of the loop of _filter_tasks and for
+   an element f that is not the name of a task:  (1) if some task p of the loaded list declares the string f in
+   `targets`, the element stands for p and nothing is added to the table;  (2) if no task declares f, the targets
+   dict plays no part -- the element is treated as if no task had any target (so, without a delayed creator
+   accounting for it, it is rejected: C12_filter_exact) *)
+Theorem C12_target_lookup_exact : forall auto tb c ph tb1 f,
+  init tb = inr c -> has tb1 f = false ->
+  (forall p, (exists t, lookup tb p = Some t /\ In f (s_targets t)) ->
+     filter_list auto (c_targets c) ph tb1 [f] = inr (ph, tb1, [p])) /\
+  ((forall u t, lookup tb u = Some t -> ~ In f (s_targets t)) ->
+     tg_get (c_targets c) f = None /\
+     filter_list auto (c_targets c) ph tb1 [f] = filter_list auto [] ph tb1 [f]).
+Proof. exact (target_lookup_exact has_star matches basename_of re_match regex_name is_regex_name is_opt). Qed.
+
 End Statements.
 Print Assumptions C12_filter_exact.
 Print Assumptions C12_regex_never_for_subtask_placeholder.
@@ -195,6 +210,7 @@ Print Assumptions C12_default.
 Print Assumptions C12_init_task_dep_exact.
 Print Assumptions C12_implicit_deps_complete.
 Print Assumptions C12_targets_exact.
+Print Assumptions C12_target_lookup_exact.
 
 (* --single (cmd_run.py 210-222), exactly: the table keeps its tasks and their order and every task is
    unchanged or has its task_dep cut down; a selected non-group task has no task_dep left; what a
@@ -255,6 +271,20 @@ Example C12_example_select :
   (exists tb tg, ex_select false [] (Some [5]) = ROk tb tg [4]) /\
   (exists tb tg, ex_select false [] None = ROk tb tg [0; 1; 2; 3; 4]).
 Proof. vm_compute. repeat split; eauto. Qed.
+
+(* two spellings of one path are two names.  strings as above plus 9 './out.txt'.  b declares the target
+   './out.txt' (9), a has file_dep 'out.txt' (5):  `doit run ./out.txt` selects b;  `doit run out.txt` is refused
+   naming out.txt;  a gets no implicit task_dep on b.  With the declaration spelled 'out.txt' (ex_tb) it is the
+   other way round.  (Hypotheses of C12_target_lookup_exact: init succeeds, 9 / 5 is no task name.) *)
+Definition ex_tb_sp : table := [(0, ex_task [] [] [5] [] false None); (4, ex_task [] [] [] [9] false None)].
+Definition ex_select_sp args :=
+  cmd_run_select ex_star ex_match ex_base ex_false2 ex_rn ex_false1 ex_opt false false args None ex_tb_sp.
+Example C12_example_target_spelling :
+  (exists tb tg, ex_select_sp [9] = ROk tb tg [4] /\ task_dep_of tb 0 = [] /\ has tb 9 = false) /\
+  ex_select_sp [5] = RNotFound 5 /\
+  (exists tb tg, ex_select false [5] None = ROk tb tg [4] /\ task_dep_of tb 0 = [4]) /\
+  ex_select false [9] None = RNotFound 9.
+Proof. vm_compute. repeat split; eauto 6. Qed.
 
 (* --single g: the group keeps its sub-tasks, g:x lost its task_dep on a; --single a b: both without task_dep *)
 Example C12_example_single :
